@@ -1149,15 +1149,23 @@ func (m *membersPool) MembersLen(node base.Address) int {
 }
 
 func (m *membersPool) Set(member Member) (added bool) {
-	_, _, _ = m.addrs.Set(memberid(member.Addr()), func(_ Member, addrfound bool) (Member, error) {
-		var members []Member
+	id := memberid(member.Addr())
 
+	_, _, _ = m.addrs.Set(id, func(old Member, addrfound bool) (Member, error) {
 		added = !addrfound
+
+		if addrfound && old != nil {
+			// NOTE re-join; drop the previous entry of this addr from its node
+			m.removeFromNode(old.Address().String(), id)
+		}
+
+		var members []Member
 
 		switch i, f := m.members.Value(member.Address().String()); {
 		case !f, i == nil:
 		default:
-			members = i
+			members = make([]Member, len(i), len(i)+1)
+			copy(members, i)
 		}
 
 		members = append(members, member)
@@ -1170,13 +1178,40 @@ func (m *membersPool) Set(member Member) (added bool) {
 }
 
 func (m *membersPool) Remove(k *net.UDPAddr) (bool, error) {
-	return m.addrs.Remove(memberid(k), func(i Member, found bool) error {
+	id := memberid(k)
+
+	return m.addrs.Remove(id, func(i Member, found bool) error {
 		if found {
-			_ = m.members.RemoveValue(i.Address().String())
+			m.removeFromNode(i.Address().String(), id)
 		}
 
 		return nil
 	})
+}
+
+// removeFromNode removes only the member of the given addr from the member
+// list of node; the other members of the node are kept.
+func (m *membersPool) removeFromNode(node, id string) {
+	i, found := m.members.Value(node)
+	if !found {
+		return
+	}
+
+	members := make([]Member, 0, len(i))
+
+	for j := range i {
+		if memberid(i[j].Addr()) != id {
+			members = append(members, i[j])
+		}
+	}
+
+	if len(members) < 1 {
+		_ = m.members.RemoveValue(node)
+
+		return
+	}
+
+	m.members.SetValue(node, members)
 }
 
 func (m *membersPool) Len() int {
